@@ -36,6 +36,8 @@ type Schema struct {
 	Tables map[string]*Table
 	Order  []string
 	DDL    []*SQLStmt
+	// columns whose declared type has no exact storage class
+	TypeProblems []string
 }
 
 func sqlTypeSort(t string) (Sort, bool) {
@@ -67,7 +69,11 @@ func SchemaFromDDL(ddl string) (*Schema, error) {
 		for _, cd := range s.ColDefs {
 			srt, ok := sqlTypeSort(cd.Type)
 			if !ok {
-				return nil, fmt.Errorf("ddl: unsupported column type %s for %s.%s", cd.Type, s.Table, cd.Name)
+				// a declared type outside TEXT / BLOB / INTEGER (and their Postgres spellings): SQLite gives
+				// such a column NUMERIC affinity and rewrites what is stored in it. Reported as a failed
+				// obligation of the schema (lemmas.go); the column is modelled as text so that the run goes on.
+				sc.TypeProblems = append(sc.TypeProblems, fmt.Sprintf("%s.%s %s", s.Table, cd.Name, cd.Type))
+				srt = SOptS
 			}
 			t.Cols = append(t.Cols, Column{Name: cd.Name, Sort: srt, SQLType: cd.Type, Default: cd.Default, AutoInc: cd.AutoInc, Unique: cd.Unique || cd.Primary})
 		}
